@@ -22,6 +22,10 @@ CHECKS = {
          "Exploration with an exhaustive core: every token sequence up to length 5 (quick) / 6 (thorough) over 18 token classes and every one-token extension of every viable prefix up to length 7 / 8 (4.3M sequences quick), 38k (quick) / 1.5M (thorough) single-token mutants of rendered documents, and 12k / 500k unmutated renderings whose parsed tree must equal the generated tree under hostile and single-space trivia.",
          "Trusts the grammar transcription (Oct 2021 Appendix B + fragment variable definitions) and the reference lexer; abstains on inputs the reference lexer abstains on. Two defects repaired (a09777e, de69567); one recorded finding (empty document accepted).",
          "DESIGN.md §4 C05"),
+ "C06": ("reference-model monitor: Earley recognizer running the Appendix-B type-system grammar as data vs ParseSchema on bounded-exhaustive token sequences (viable-prefix extension, all one-token extensions of dead prefixes), rendered trees and token mutations; model-tree round trip; BuiltIn-flag monitor over multi-source parses",
+         "Exploration with an exhaustive core: every token sequence up to length 3 (quick) / 4 (thorough) over 39 type-system token classes, every one-token extension of every viable prefix up to length 6 / 7 and every one-token extension of each freshly dead prefix (51M sequences quick), 29k / 750k single-token mutants of rendered documents, 9.6k / 250k unmutated renderings whose parsed tree must equal the generated tree under two trivia placements, and 2.4k / 62k multi-source parses checking the BuiltIn flag and source identity of every definition and extension.",
+         "Trusts the grammar transcription (Oct 2021 Appendix B) and the reference lexer. Six defects repaired (4d982fd, ed840c2, b3e17c4, ce4e730, 4c3db2d, 11abd49); two recorded findings (reserved enum value names accepted - pinned by the suite; empty document accepted).",
+         "DESIGN.md §4 C06"),
  "C12": ("round-trip monitor: model(parse(x)) = model(parse(format_c(parse(x)))) and text fixpoint, over generated trees with hostile strings x 20 formatter configurations",
          "Exploration: 5k (quick) / 100k (thorough) documents rendered from random syntax trees with hostile string values, directives in every position (incl. variable definitions), fragment variables and comments are parsed, formatted under every combination of comments x compacted x 5 indents (builtin / no-description flags rotated), re-parsed and compared through an independent AST->model adapter; the second format must reproduce the first byte for byte.",
          "Trusts the model adapter and diff; comments and positions are not compared; relative order of operations vs fragments not compared (formatter emits operations first by design). Two defects found by this check were repaired (fix: commits fc85355, 36779a6).",
